@@ -71,6 +71,8 @@ type genMerge struct {
 }
 
 type Gen struct {
+	localAllocs []localAlloc // non-escaping local variables (exempt from the havoc of unknown callees)
+	keySorts map[string]string // datatype declarations of struct map-key sorts (see structKeySort)
 	uncontracted []string // callees without contract met while executing (over-approximated)
 	freeVars map[string]Val // closures: captured variables by name (value = address of the variable)
 	w    *World
@@ -135,10 +137,16 @@ type Gen struct {
 	leafKeySort map[string]string    // map value heaps: sort of the key index
 }
 
+type localAlloc struct {
+	ref string
+	t   types.Type
+}
+
 type ghostDef struct {
 	name  string
 	block *ssa.BasicBlock
 	val   Val
+	pre   bool // placeholder bound before execution (prebindGhosts): any real binding takes precedence
 }
 
 type loopInfo struct {
@@ -668,6 +676,18 @@ func (g *Gen) prelude(body string) string {
 	b.WriteString("(declare-fun scat (Str Str) Str)\n")
 	b.WriteString("(declare-fun dyntype (Int) Int)\n")
 	b.WriteString("(declare-fun sdiff (Str Str) " + idx + ")\n")
+	{
+		var names []string
+		for n := range g.keySorts {
+			names = append(names, n)
+		}
+		sort.Strings(names)
+		for _, n := range names {
+			if strings.Contains(body, n) {
+				b.WriteString(g.keySorts[n] + "\n")
+			}
+		}
+	}
 	uses := func(sym string) bool { return strings.Contains(body, "("+sym+" ") }
 	// axioms are included only when the symbol they define occurs: quantifier-free queries get definite answers
 	if g.mode == "bv" {
